@@ -421,9 +421,36 @@ class _State(object):
         elif isinstance(tgt, ast.Starred):
             self.assign(tgt.value, ("unknown", "starred"))
 
+    def record_args(self, v):
+        """(field names, argument terms) when v is the construction of a module-level namedtuple
+        record with positional / keyword arguments (seen through inlined helpers); else None"""
+        w = v
+        while isinstance(w, tuple) and w and w[0] == "inl":
+            w = w[2]
+        if not (isinstance(w, tuple) and w and w[0] == "call" and isinstance(w[1], str) and w[1].startswith(self.repo.package + ".")):
+            return None
+        mname, _, name = w[1].rpartition(".")
+        try:
+            if not self.repo.has_mod(mname):
+                return None
+            pv = self.repo.const(self.repo.mod(mname), name)
+        except Exception:
+            return None
+        if not (isinstance(pv, tuple) and len(pv) == 3 and pv[0] == "namedtuple"):
+            return None
+        fields = list(pv[2])
+        args = list(w[2])
+        kw = dict(w[3]) if len(w) > 3 and w[3] else {}
+        if len(args) + len(kw) != len(fields) or any(k not in fields[len(args):] for k in kw):
+            return None
+        return fields, args + [kw[f] for f in fields[len(args):]]
+
     def item(self, v, i, n=None):
         if self.is_split_like(v) and n == 5:
             return ("attr", v, SPLIT_FIELDS[i])
+        ra = self.record_args(v)
+        if ra is not None and (n is None or n == len(ra[0])) and 0 <= i < len(ra[1]):
+            return ra[1][i]
         return ("item", v, i)
 
     def is_split_like(self, v):
@@ -537,7 +564,11 @@ class _State(object):
                 return ("global", dn)
             if isinstance(n.value, ast.Name) and (n.value.id + "." + n.attr) in self.env:
                 return self.env[n.value.id + "." + n.attr]
-            return ("attr", self.expr(n.value), n.attr)
+            base = self.expr(n.value)
+            ra = self.record_args(base)
+            if ra is not None and n.attr in ra[0]:
+                return ra[1][ra[0].index(n.attr)]
+            return ("attr", base, n.attr)
         if isinstance(n, ast.Call):
             return self.call(n)
         if isinstance(n, ast.BinOp):
@@ -630,6 +661,9 @@ class _State(object):
         if isinstance(f, ast.Name):
             if f.id in self.env:
                 fv = self.env[f.id]
+                if fv[0] == "partial":
+                    # a local functools.partial(f, ...) called: the call of f with both argument lists
+                    return self._call_value(fv, args, kwargs, n)
                 if fv[0] == "funcref" or (fv[0] == "global" and fv[1].startswith(self.repo.package + ".")):
                     # a function (or module-level partial / compiled pattern) received as an argument
                     qn = fv[1]
@@ -638,6 +672,10 @@ class _State(object):
                 else:
                     return ("callv", fv, args, kwargs)
             else:
+                bound = self._regex_method_partial(f.id)
+                if bound is not None:
+                    # NAME = partial(PATTERN.sub, "") called as NAME(x): the regex operation itself
+                    return ("call", bound[0], bound[1] + args, kwargs)
                 qn = self.repo.resolve_call(self.module, f)
                 if qn is None and f.id in self.module.bindings:
                     # module-level value that is callable (partial, compiled regex...)
@@ -678,7 +716,27 @@ class _State(object):
             return ("callv", self.expr(f), args, kwargs)
         if qn is None:
             return ("call", "?" + unparse(f), args, kwargs)
+        if qn == "functools.partial" and args and args[0][0] in ("funcref", "global", "partial") and not any(a[0] == "starred" for a in args) and not any(k == "**" for k, _ in kwargs):
+            return ("partial", args[0], tuple(args[1:]), tuple(kwargs))
+        if qn in ("builtins.filter", "itertools.filterfalse", "builtins.map") and len(args) == 2 and not kwargs and args[0][0] in ("funcref", "global", "partial"):
+            # filter(f, xs) == (x for x in xs if f(x)); filterfalse(f, xs) == (x for x in xs if not f(x)); map(f, xs) == (f(x) for x in xs)
+            var = ("var", "_x", args[1])
+            applied = self._call_value(args[0], (var,), (), n)
+            if qn == "builtins.map":
+                return ("comp", "GeneratorExp", applied, ((("_x",), args[1], ()),))
+            cond = applied if qn == "builtins.filter" else mknot(applied)
+            return ("comp", "GeneratorExp", var, ((("_x",), args[1], (cond,)),))
+        if qn in ("builtins.list", "builtins.tuple") and len(args) == 1 and not kwargs and args[0][0] == "comp" and args[0][1] == "GeneratorExp":
+            return ("comp", "ListComp" if qn == "builtins.list" else "GeneratorExp", args[0][2], args[0][3])
         return self.apply(qn, args, kwargs, n)
+
+    def _call_value(self, fv, args, kwargs, node=None):
+        """call of a function value: a reference, a module-level callable, or a local partial of one"""
+        if fv[0] == "partial":
+            return self._call_value(fv[1], tuple(fv[2]) + tuple(args), tuple(k for k in fv[3] if k[0] not in dict(kwargs)) + tuple(kwargs), node)
+        if fv[0] in ("funcref", "global") and isinstance(fv[1], str):
+            return self.apply(fv[1], tuple(args), tuple(kwargs), node)
+        return ("callv", fv, tuple(args), tuple(kwargs))
 
     def _inline_self_method(self, recv, name, args, kwargs):
         """self.helper(...) where helper is a method of the class under analysis (Extractor.self_class) that the
@@ -703,6 +761,33 @@ class _State(object):
         finally:
             ex._stack.pop()
         return ("inl", label, ex.result_term(rets))
+
+    def _regex_method_partial(self, name):
+        """(canonical regex-operation name, constant leading arguments) when the module-level name is
+        functools.partial(<module-level pattern>.<method>, constants...); else None"""
+        site = self.repo.def_site(self.module, name) if name in self.module.bindings else None
+        if site is None:
+            return None
+        home = self.repo.mod(site[0])
+        rec = home.last_binding(site[1])
+        if rec is None or rec[0] != "assign" or not isinstance(rec[1], ast.Call) or not rec[1].args or rec[1].keywords:
+            return None
+        c = rec[1]
+        if not (isinstance(c.func, (ast.Name, ast.Attribute)) and (self.repo.dotted(home, c.func) == "functools.partial" or (isinstance(c.func, ast.Name) and getattr(self.repo.resolve(home, c.func.id), "qualname", None) == "functools.partial"))):
+            return None
+        tgt = c.args[0]
+        if not (isinstance(tgt, ast.Attribute) and isinstance(tgt.value, ast.Name) and ("re." + tgt.attr) in _RE_FUNCS and tgt.value.id in home.bindings):
+            return None
+        g = self.repo.canon(home, tgt.value.id)
+        if not self._is_regex_global(g):
+            return None
+        pre = []
+        for a in c.args[1:]:
+            try:
+                pre.append(("const", _hashable(self.repo.ceval(home, a))))
+            except Unknown:
+                return None
+        return "%s.%s" % (g, tgt.attr), tuple(pre)
 
     def _is_regex_global(self, qual):
         from .srcmodel import Regex
@@ -745,7 +830,36 @@ class _State(object):
                     if r2 is not None and r2.qualname != qn:
                         return self.apply(r2.qualname, args, kwargs, node)
                     return ("call", qn + "?", args, kwargs)
+        args, kwargs = self._canonical_arguments(qn, args, kwargs)
         return ("call", label, args, kwargs)
+
+    def _canonical_arguments(self, qn, args, kwargs):
+        """one spelling per call of a package function: parameters without a default are positional,
+        parameters with a default are keywords in signature order (f(x, True) == f(x, flag=True))"""
+        if not qn.startswith(self.repo.package + ".") or any(a[0] == "starred" for a in args) or any(k == "**" for k, _ in kwargs):
+            return args, kwargs
+        modname, _, name = qn.rpartition(".")
+        if not self.repo.has_mod(modname):
+            return args, kwargs
+        rec = self.repo.mod(modname).last_binding(name)
+        if rec is None or rec[0] != "def" or rec[1].args.vararg is not None or rec[1].args.posonlyargs:
+            return args, kwargs
+        a = rec[1].args
+        names = [x.arg for x in a.args]
+        ndef = len(a.defaults)
+        required = names[:len(names) - ndef] if ndef else list(names)
+        if len(args) > len(names):
+            return args, kwargs
+        bound = dict(zip(names, args))
+        for k, v in kwargs:
+            if k in bound:
+                return args, kwargs
+            bound[k] = v
+        if any(r not in bound for r in required):
+            return args, kwargs
+        pos = tuple(bound[r] for r in required)
+        rest = [n for n in names if n not in required and n in bound] + [k for k, _ in kwargs if k not in names]
+        return pos, tuple((k, bound[k]) for k in rest)
 
 
 # ----------------------------------------------------------------------
